@@ -87,7 +87,7 @@ impl Default for Limits {
             max_depth: None,
             max_states: 50_000_000,
             max_wall_s: 3600.0,
-            max_rss_mb: 20_000,
+            max_rss_mb: 36_000,
             max_violations: 400,
         }
     }
